@@ -5,6 +5,184 @@ TOWER = ['Bool', 'Nat', 'Int', 'Ratio', 'Float', 'Complex']   # ascending: each 
 FILE = 'crates/erg_compiler/context/compare.rs'
 
 
+COMPARE = 'crates/erg_compiler/context/compare.rs'
+
+
+class NotFormula(Exception):
+    pass
+
+
+def formula(e, binds):
+    """quantifier formula of an arm body of structural_supertype_of over the bound sets / elements:
+       ('all', set, var, F) ('any', set, var, F) ('rel', a, b) ('and'|'or', F, G) ('not', F) ('cmp', op, ('len', X), ('len', Y)|int) ('empty', X) ('const', b)"""
+    e = T.peel(e)
+    k = e.get('k')
+    if k == 'Block' and 'e' in e and not e.get('s'):
+        return formula(e['e'], binds)
+    if k == 'Lit' and isinstance(e.get('v'), dict) and 'bool' in e['v']:
+        return ('const', e['v']['bool'])
+    if k == 'Binary' and e.get('op') in ('&&', '||'):
+        return ('and' if e['op'] == '&&' else 'or', formula(e['x'], binds), formula(e['y'], binds))
+    if k == 'Unary' and e.get('op') == '!':
+        return ('not', formula(e['x'], binds))
+    if k == 'Binary' and e.get('op') in ('<', '<=', '>', '>=', '==', '!='):
+        def side(x):
+            x = T.peel(x)
+            if x.get('k') == 'MCall' and x['n'] == 'len' and T.peel(x['r']).get('k') == 'Local' and T.peel(x['r'])['n'] in binds:
+                return ('len', T.peel(x['r'])['n'])
+            v = T.lit_int(x)
+            if v is not None:
+                return v
+            raise NotFormula(T.show(x)[:30])
+        return ('cmp', e['op'], side(e['x']), side(e['y']))
+    if k == 'MCall' and e['n'] == 'is_empty' and T.peel(e['r']).get('k') == 'Local' and T.peel(e['r'])['n'] in binds:
+        return ('empty', T.peel(e['r'])['n'])
+    if k == 'MCall' and e['n'] in ('all', 'any') and e['a']:
+        r = T.peel(e['r'])
+        if r.get('k') == 'MCall' and r['n'] in ('iter', 'into_iter') and T.peel(r['r']).get('k') == 'Local' and T.peel(r['r'])['n'] in binds:
+            src = T.peel(r['r'])['n']
+            clo = T.peel(e['a'][0])
+            if clo.get('k') == 'Closure' and len(clo.get('params', [])) == 1 and clo['params'][0].get('k') == 'Bind':
+                v = clo['params'][0]['n']
+                # an inner variable may shadow the set of the same name: the closure parameter wins inside
+                return (e['n'], src, v + '#' + str(clo['params'][0].get('id')), formula_sub(clo['b'], binds, {v: v + '#' + str(clo['params'][0].get('id'))}))
+    if k in ('MCall', 'Call') and T.last_seg(T.callee(e) or '') in ('supertype_of', 'subtype_of'):
+        args = e['a'] if k == 'MCall' else e['a'][1:]
+        if len(args) >= 2:
+            a, b = term(args[0], binds), term(args[1], binds)
+            return ('rel', a, b) if T.last_seg(T.callee(e)) == 'supertype_of' else ('rel', b, a)
+    raise NotFormula(T.show(e)[:40])
+
+
+def formula_sub(e, binds, ren):
+    b2 = dict(binds)
+    b2.update({'@ren': dict(binds.get('@ren', {}), **ren)})
+    return formula(e, b2)
+
+
+def term(e, binds):
+    e = T.peel(e)
+    if e.get('k') == 'Local':
+        ren = binds.get('@ren', {})
+        return ren.get(e['n'], e['n'])
+    raise NotFormula(T.show(e)[:30])
+
+
+def union_rule(chk, fx):
+    import itertools
+    chk.rule('C06-union', 'subtyping of unions is a preorder: the three union arms of Context::structural_supertype_of — (Or, Or), (Or, t) and (t, Or) — are read as quantifier formulas '
+                          '(all / any / supertype_of / len / is_empty / && || !) and evaluated over every type of a finite model (five atoms s, n, t < e and f, all unions of two or '
+                          'three atoms): the resulting relation must be reflexive and transitive')
+    f = fx.fn(COMPARE, 'Context::structural_supertype_of')
+    ms = [n for n in T.walk(f['body']) if n.get('k') == 'Match' and n.get('src') == 'Normal']
+    if not chk.need(ms, 'structural_supertype_of: no match'):
+        return
+    m = max(ms, key=lambda n: len(n['arms']))
+    arms = {}
+    for arm in m['arms']:
+        p = arm['pat']
+        if p.get('k') != 'PTuple' or len(p['p']) != 2 or arm.get('g'):
+            continue
+
+        def shape(q):
+            if q.get('k') == 'PTupleStruct' and q['d'].split('::')[-1] == 'Or' and len(q['p']) == 1 and q['p'][0].get('k') == 'Bind':
+                return ('Or', q['p'][0]['n'])
+            if q.get('k') == 'Bind':
+                return ('t', q['n'])
+            return None
+        a, b = shape(p['p'][0]), shape(p['p'][1])
+        if a and b and 'Or' in (a[0], b[0]):
+            arms.setdefault((a[0], b[0]), (arm, a[1], b[1]))
+    if not chk.need(set(arms) == {('Or', 'Or'), ('Or', 't'), ('t', 'Or')}, 'structural_supertype_of: union arms found: %s' % sorted(arms)):
+        return
+    forms = {}
+    for key, (arm, ln, rn) in arms.items():
+        try:
+            forms[key] = (formula(arm['b'], {ln: key[0], rn: key[1]}), ln, rn, arm)
+        except NotFormula as ex:
+            chk.need(False, 'structural_supertype_of: the %s arm is outside the formula fragment (%s)' % (key, ex))
+            return
+    atoms = ['s', 'n', 't', 'e', 'f']
+    below = {(x, x) for x in atoms} | {('s', 'e'), ('n', 'e'), ('t', 'e')}          # (sub, super)
+    types = [('a', x) for x in atoms] + [('u', frozenset(c)) for k_ in (2, 3) for c in itertools.combinations(atoms, k_)]
+    memo = {}
+
+    def sup(A, B):
+        """A :> B in the model"""
+        key = (A, B)
+        if key in memo:
+            return memo[key]
+        memo[key] = False          # (no recursion through the same pair in this fragment)
+        if A[0] == 'a' and B[0] == 'a':
+            r = (B[1], A[1]) in below
+        else:
+            k2 = ('Or' if A[0] == 'u' else 't', 'Or' if B[0] == 'u' else 't')
+            F_, ln, rn, _ = forms[k2]
+            env = {ln: A, rn: B}
+            r = ev(F_, env)
+        memo[key] = r
+        return r
+
+    def val(x, env):
+        v = env[x]
+        return v
+
+    def ev(F_, env):
+        t = F_[0]
+        if t == 'const':
+            return F_[1]
+        if t in ('and', 'or'):
+            a = ev(F_[1], env)
+            if t == 'and':
+                return a and ev(F_[2], env)
+            return a or ev(F_[2], env)
+        if t == 'not':
+            return not ev(F_[1], env)
+        if t == 'empty':
+            return len(env[F_[1]][1]) == 0
+        if t == 'cmp':
+            def num(x):
+                return x if isinstance(x, int) else len(env[x[1]][1])
+            a, b = num(F_[2]), num(F_[3])
+            return {'<': a < b, '<=': a <= b, '>': a > b, '>=': a >= b, '==': a == b, '!=': a != b}[F_[1]]
+        if t in ('all', 'any'):
+            members = [('a', x) for x in sorted(env[F_[1]][1])]
+            it = (ev(F_[3], dict(env, **{F_[2]: mbr})) for mbr in members)
+            return all(it) if t == 'all' else any(it)
+        if t == 'rel':
+            return sup(env[F_[1]], env[F_[2]])
+        raise NotFormula(t)
+    try:
+        bad_refl = [A for A in types if not sup(A, A)]
+        bad_trans = None
+        for A, B in itertools.product(types, repeat=2):
+            if not sup(A, B):
+                continue
+            for C in types:
+                if sup(B, C) and not sup(A, C):
+                    bad_trans = (A, B, C)
+                    break
+            if bad_trans:
+                break
+    except (KeyError, NotFormula) as ex:
+        chk.need(False, 'structural_supertype_of: the union arms could not be evaluated in the model (%s)' % ex)
+        return
+
+    def show(X):
+        return X[1] if X[0] == 'a' else ' or '.join(sorted(X[1]))
+    chk.analysed['types in the union model'] = len(types)
+    if bad_refl:
+        chk.bad('C06-union', 'Context::structural_supertype_of', 'reflexive', 'with the union arms as written, `%s` is not a supertype of itself' % show(bad_refl[0]), COMPARE, arms[('Or', 'Or')][0]['l'])
+    else:
+        chk.ok('C06-union', 'reflexive', sample='reflexive on %d model types' % len(types))
+    if bad_trans:
+        A, B, C = bad_trans
+        chk.bad('C06-union', 'Context::structural_supertype_of', 'transitive', 'with the union arms as written (atoms s, n, t <: e; f unrelated): `%s` :> `%s` and `%s` :> `%s` hold but '
+                '`%s` :> `%s` does not — subtyping of unions is not transitive' % (show(A), show(B), show(B), show(C), show(A), show(C)), COMPARE, arms[('Or', 'Or')][0]['l'])
+    else:
+        chk.ok('C06-union', 'transitive', sample='transitive on %d^3 triples' % len(types))
+
+
 def run(chk):
     fx = F.Facts()
     chk.rule('C06-tower', 'for all a,b in Bool<Nat<Int<Ratio<Float<Complex: cheap_supertype_of(a,b) never answers (Absolutely,false) when a >= b '
@@ -157,6 +335,7 @@ def run(chk):
         chk.ok('C06-tower', 'cheap_subtype_of-flip', sample='cheap_subtype_of(l, r) = cheap_supertype_of(r, l)')
     else:
         chk.bad('C06-tower', 'Context::cheap_subtype_of', 'flip', 'cheap_subtype_of(lhs, rhs) is not cheap_supertype_of(rhs, lhs)', FILE, sub['line'])
+    union_rule(chk, fx)
     return ('The arms of Context::cheap_supertype_of are evaluated in order (resolved variant patterns, guards through the variant set of '
             'Type::is_mono_value_class) on every ordered pair of the six numeric classes and on Obj/Never against every built-in unit type. '
             'Decides the tower/top/bottom clauses only; reflexivity/transitivity over structural types are not decided.'), {'exhaustive': True}
